@@ -76,6 +76,12 @@ def real_cases(ctx, rng, nseeds):
     idxs = [0, 1, 2 ** 31 - 1, 2 ** 31, 2 ** 31 + 1, 2 ** 32 - 1]
     for si in range(nseeds):
         seed = rb([16, 32, 64, 17, 63][si % 5])
+        if si in (1, 2):
+            # a master key (si = 1) / master chain code (si = 2) whose leading byte is zero: found by search with hmac
+            for t_ in range(100000):
+                seed = b"seed-%d-%d" % (si, t_) + rb(8)
+                if pyhmac.new(b"Bitcoin seed", seed, hashlib.sha512).digest()[0 if si == 1 else 32] == 0:
+                    break
         net = ["mainnet", "testnet", "signet", "regtest"][si % 4]
         calls = []
         orig = hd.hmac_sha512
@@ -87,6 +93,14 @@ def real_cases(ctx, rng, nseeds):
             node = root
             for step in range(3 if si else 6):
                 idx = idxs[(si + step) % len(idxs)] if (step + si) % 3 else rng.randrange(2 ** 32)
+                if si == 1 and step == 1:
+                    # a child whose private key has a leading zero byte (non-hardened, so the public side goes the same way)
+                    sec_ = node.private_key.point.sec()
+                    for cand in range(0, 200000):
+                        il_ = int.from_bytes(pyhmac.new(node.chain_code, sec_ + cand.to_bytes(4, "big"), hashlib.sha512).digest()[:32], "big")
+                        if il_ < N256 and ((il_ + node.private_key.secret) % N256) >> 248 == 0:
+                            idx = cand
+                            break
                 del calls[:]
                 if (si + step) % 2 == 1:
                     # other queries on the same key objects first (uncompressed forms, addresses): derivation must not depend on them
